@@ -49,6 +49,7 @@ rx("m06d", "C06", "internals/DataProviders.go", r"m, ok := x\.Interface\(\)\.\(m
 rx("m06e", "C06", "struct.go", r"key = string\(rune\(key\[0\]-32\)\) \+ key\[1:\]", "var b [32]byte\n\t\t\tcopy(b[:], key)\n\t\t\tb[0] -= 32\n\t\t\tkey = string(b[:len(key)])", "panic-site")
 rx("m06f", "C06", "slices.go", r"(func sliceLength(?s:.*?))return rv\.Len\(\) == n", "${1}seen := map[any]bool{}\n\t\tfor i := 0; i < rv.Len(); i++ {\n\t\t\tseen[rv.Index(i).Interface()] = true\n\t\t}\n\t\treturn rv.Len() == n", "panic-site", "elements of the parsed slice used as keys of a map[any]: a JSON object among them panics")
 rx("m06g", "C06", "parsers/zjson/parseJson.go", r"closer, ok := r\.\(io\.Closer\)\n\t\tif ok \{", "closer, ok := r.(io.Closer)\n\t\tif !ok {", "panic-site", "Close called on the reader exactly when it is not a Closer: every plain reader panics (passes the whole suite)")
+rx("m06p", "C06", "internals/PathBuilder.go", r"\(len\(v\) == 0 \|\| v\[0\] != '\['\)", "v[0] != '['", "panic-site", "F26 reverted: a path segment indexed without a length test")
 # ---- C07
 rx("m07a", "C07", "internals/contexts.go", r"\tc2\.Exit = false\n", "", "reinit")
 rx("m07b", "C07", "internals/Issues.go", r"\te\.Err = nil\n\treturn e", "\treturn e", "reinit")
